@@ -240,25 +240,36 @@ def ob_constructors():
                            replay=dict(func="c07:replay_affine_shapes", kwargs=dict(lsh=list(lsh), ssh=list(ssh))), **acc.stats()))
         else:
             out.append(rec(name, "discharged" if good else "inconclusive", detail="" if good else f"loc {st1}, scale {st2}", **acc.stats()))
-    # TriangularAffine(loc, arr, lower): A = requested triangle of arr (diagonal included)
+    # TriangularAffine(loc, arr, lower): A = requested triangle of arr (diagonal included), every dimension 1..5 (the element order of a
+    # triangle stored as a vector only matters from dim 4 on)
     for lower in (True, False):
-        acc = Acc()
-        name = f"C07/TriangularAffine constructor lower={lower}: triangular == requested triangle of arr (diagonal kept, other triangle zero)"
-        d = 3
-        arr, loc = symarr("a", (d, d)), symarr("loc", (d,))
-        ctx = Ctx()
-        I = Interp(ctx)
-        assume = [arr[i, i] > 0 for i in range(d)]
-        set_path(assume, ctx.facts)
-        j = trace(lambda l, a: unwrap(fb.TriangularAffine(l, a, lower=lower)).triangular, jnp.zeros(d), jnp.eye(d))
-        T = I.run(j, loc, arr)[0]
-        set_path(None)
-        ref = np.empty((d, d), dtype=object)
-        for i in range(d):
-            for k in range(d):
-                ref[i, k] = arr[i, k] if ((k <= i) if lower else (k >= i)) else Fraction(0)
-        st, m, where = eq_goal(ctx, assume, T, ref, name)
-        out.append(rec(name, "discharged" if st == "unsat" else "inconclusive", detail="" if st == "unsat" else f"{st} at {where}", **acc.stats()))
+        for d in (1, 2, 3, 4, 5):
+            acc = Acc()
+            name = f"C07/TriangularAffine constructor lower={lower}, dim={d}: triangular == requested triangle of arr (diagonal kept, other triangle zero)"
+            arr, loc = symarr("a", (d, d)), symarr("loc", (d,))
+            ctx = Ctx()
+            I = Interp(ctx)
+            assume = [arr[i, i] > 0 for i in range(d)]
+            set_path(assume, ctx.facts)
+            try:
+                j = trace(lambda l, a: unwrap(fb.TriangularAffine(l, a, lower=lower)).triangular, jnp.zeros(d), jnp.eye(d))
+                T = I.run(j, loc, arr)[0]
+            except jx.Unsupported as e:
+                set_path(None)
+                ok, msg = replay_triangular(lower, d)
+                out.append(rec(name, "violation" if ok else "error", detail=f"unsupported: {e} | {msg}", replay=dict(func="c07:replay_triangular", kwargs=dict(lower=lower, d=d))))
+                continue
+            set_path(None)
+            ref = np.empty((d, d), dtype=object)
+            for i in range(d):
+                for k in range(d):
+                    ref[i, k] = arr[i, k] if ((k <= i) if lower else (k >= i)) else Fraction(0)
+            st, m, where = eq_goal(ctx, assume, T, ref, name)
+            if st == "unsat":
+                out.append(rec(name, "discharged", **acc.stats()))
+            else:
+                ok, msg = replay_triangular(lower, d)
+                out.append(rec(name, "violation" if ok else "inconclusive", detail=f"{st} at {where} | {msg}", replay=dict(func="c07:replay_triangular", kwargs=dict(lower=lower, d=d)), **acc.stats()))
     # RationalQuadraticSpline at initialisation: x_pos == y_pos and derivatives == 1 for every min_derivative in (0,1)
     acc = Acc()
     name = "C07/RationalQuadraticSpline constructor: identity at initialisation for every min_derivative in (0,1)"
@@ -293,6 +304,25 @@ def ob_constructors():
     out.append(rec(nm, "discharged", nontrivial=False) if not bad else
                rec(nm, "violation", detail=f"constructor constants off: {bad[:2]}", nontrivial=False, replay=dict(func="c07:replay_leaky", kwargs=dict(max_val=bad[0][0]))))
     return out
+
+
+def replay_triangular(lower, d):
+    import jax
+    jax.config.update("jax_enable_x64", True)
+    import jax.numpy as jnp
+    import flowjax.bijections as fb
+    from flowjax.wrappers import unwrap
+    rng = np.random.RandomState(d)
+    a = rng.normal(size=(d, d))
+    a[np.arange(d), np.arange(d)] = np.abs(a[np.arange(d), np.arange(d)]) + 0.5
+    loc = rng.normal(size=d)
+    b = fb.TriangularAffine(jnp.asarray(loc), jnp.asarray(a), lower=lower)
+    T = np.asarray(unwrap(b).triangular)
+    want = np.tril(a) if lower else np.triu(a)
+    x = rng.normal(size=d)
+    y = np.asarray(b.transform(jnp.asarray(x)))
+    bad = (not np.allclose(T, want, rtol=1e-9, atol=1e-12)) or (not np.allclose(y, want @ x + loc, rtol=1e-9, atol=1e-12))
+    return bool(bad), f"TriangularAffine(lower={lower}, dim={d}): stored matrix {T.tolist()} vs requested triangle {want.tolist()}"
 
 
 def replay_affine_shapes(lsh, ssh):
